@@ -52,6 +52,7 @@ func checkC04(p *Prog, r *Report) {
 	didQueryRules(p, r, m, "C04", false, true, false)
 	// the sequence history survives a genesis export/import: every entry (tombstones included) is imported, unchanged, under its key
 	didGenesisRules(p, r, m, "C04")
+	checkExportLoadsRequestedHeight(p, r, func(rule, rest string) string { return rule + ":C04:" + rest })
 	checkNoLanguageDowngrade(p, r, "C04")
 	checkGenesisJSONForms(p, r, "C04", []string{"x/did"})
 	checkModuleExtensionInterfaces(p, r, "C04", []string{"x/did"})
@@ -62,6 +63,7 @@ func checkC04(p *Prog, r *Report) {
 // C05 — created at most once; deactivation permanent.
 func checkC05(p *Prog, r *Report) {
 	checkExportLoadsRequestedHeight(p, r, func(rule, rest string) string { return rule + ":C05:" + rest })
+	checkDIDIdentifierLanguage(p, r, func(rule, rest string) string { return rule + ":C05:" + rest })
 	checkNoDroppedErrors(p, r, "C05", "x/did/keeper, x/did/types", func(fn *ssa.Function) bool { return InPkgs(fn, "x/did/keeper", "x/did/types") })
 	checkNoNilWrap(p, r, "C05", "x/did/keeper, x/did/types", func(fn *ssa.Function) bool { return InPkgs(fn, "x/did/keeper", "x/did/types") })
 	r.Explain = "Decided statically: D1 with the emptiness/deactivation predicates expanded by path enumeration into the atoms {Document==nil, Document.Id==\"\", Sequence==0}, the path condition at the write of a creating handler excludes an active entry and a tombstone (truth table), and that of a modifying handler entails an active entry; D2 the tombstone's sequence is the proof's result (stored+1); D3 nothing deletes from the DID store and the query succeeds only for active entries; D4 export/import/list loops have no conditional skip and import stores entries untransformed. The did store key is handed to the did keeper only; the query looks up exactly the base64-decoded request field."
